@@ -82,11 +82,24 @@ func RunInspections(layout Layout, runDir string, lineNormalization bool, useDSS
 }
 
 // cleanArtifactPaths returns a copy of the passed artifact map, in which the
-// artifact paths are cleaned up. The passed map is not modified.
+// artifact paths are cleaned up. The passed map is not modified. An artifact
+// that is recorded under several spellings of its path ("foo" and "./foo") with
+// different hashes is left out: it is ambiguous and must not match anything,
+// whichever spelling the map iteration happens to visit first.
 func cleanArtifactPaths(artifacts map[string]HashObj) map[string]HashObj {
 	cleaned := make(map[string]HashObj, len(artifacts))
+	ambiguous := NewSet()
 	for k, v := range artifacts {
-		cleaned[path.Clean(k)] = v
+		cleanPath := path.Clean(k)
+		if ambiguous.Has(cleanPath) {
+			continue
+		}
+		if other, exists := cleaned[cleanPath]; exists && !reflect.DeepEqual(other, v) {
+			delete(cleaned, cleanPath)
+			ambiguous.Add(cleanPath)
+			continue
+		}
+		cleaned[cleanPath] = v
 	}
 	return cleaned
 }
